@@ -18,7 +18,7 @@ LEVEL = "exploration"
 ENGINE = "CAL+EP"
 CLASSES = [ES, NK, VX, ZQ, ZT, ZF, ZN, ZB]
 DECADES = list(range(1970, 2100, 10))
-N = {"quick": 30, "thorough": 2400}
+N = {"quick": 40, "thorough": 2400}
 TIME = {"quick": 40, "thorough": 480}
 RULE = ("Resolution (systematic): for every built-in class x decade 1970..2099 x month offset {0,1,2}, a chain over the decade is "
         "resolved at EVERY last-trading instant exactly, 1us before and after it, and at random instants, through lead_contract(now), "
@@ -33,7 +33,7 @@ ASSUMPTIONS = ["grid gaps shorter than the roll window (expiry - last trading da
                "chain spans cover the process clock (K3 is reported under C10 only)"]
 REQUIRED = ["C11:lead-resolution", "C11:never-past-last-trading", "C11:monotone", "C11:others-flat", "C11:not-held-at-expiry",
             "C11:roll-closes-old-lead", "C11:new-lead-at-own-quotes"]
-REQUIRED_CATS = ["resolution:explicit-unsorted-list", "roll-inside-latency-window", "rolling:ES", "rolling:NK", "rolling:VX", "rolling:ZN", "rolled-while-holding"]
+REQUIRED_CATS = ["market-data-keyed-by-chain", "resolution:explicit-unsorted-list", "roll-inside-latency-window", "rolling:ES", "rolling:NK", "rolling:VX", "rolling:ZN", "rolled-while-holding"]
 REQUIRED_HITS = ["Broker.transact", "Broker.rebalance"]
 TECHNIQUE = "runtime monitoring: complete enumeration of roll instants against a linear-scan reference; holdings invariants after every step of rolling episodes"
 LEVEL_TEXT = ("Roll instants of every built-in class are enumerated completely per decade (exact instant and +-1us) against an "
@@ -133,7 +133,16 @@ def case(ctx, i, tier):
     if intraday:
         qtimes = sorted(set(grid + [g + timedelta(seconds=latency - 5) for g in grid[:-1]] +
                             [g + timedelta(seconds=latency + 5) for g in grid[:-1]]))
-    for c in ch.contracts:
+    chain_keyed = (not intraday) and month == 0 and rng.random() < 0.25
+    if chain_keyed:
+        # a continuous front-month series: every quote is addressed to the CHAIN itself and lands in the
+        # book of whatever contract leads at that time
+        ctx.cat("market-data-keyed-by-chain")
+        p = rng.uniform(10, 3000)
+        for t in qtimes:
+            p *= math.exp(rng.gauss(0, 0.006))
+            evs.append(EventNBBO(t, ch, p * (1 - spread / 2), p * (1 + spread / 2)))
+    for c in ([] if chain_keyed else ch.contracts):
         p = rng.uniform(10, 3000)
         for t in qtimes:
             if pydt(c.expiry) - timedelta(days=500) < t < pydt(c.expiry):
@@ -176,7 +185,11 @@ def case(ctx, i, tier):
                 x = sink.log[cursor[0]]
                 cursor[0] += 1
                 if x[0] == "M" and isinstance(x[5], EventNBBO):
-                    quotes[x[5].contract] = (x[5].bid_price, x[5].ask_price)
+                    key = x[5].contract
+                    if key is ch:
+                        key = sorted([c for c in ch.contracts if pydt(c.last_trading_date) > x[2]],
+                                     key=lambda c: pydt(c.last_trading_date))[month]
+                    quotes[key] = (x[5].bid_price, x[5].ask_price)
                 elif x[0] == "X":
                     ctx.check("C11:not-held-at-expiry", env.broker.holdings_quantity.get(x[5].contract, 0.0) == 0.0 and
                               h_before.get(x[5].contract, 0.0) * 0 == 0 and _held_at(h_before, rb, x[5].contract) == 0.0,
